@@ -49,7 +49,7 @@ struct side {
     int64_t bytes_sent_acc, bytes_rcv;   /* bytestream: accepted / received byte counts */
     unsigned char *stream;               /* bytestream: the accepted bytes, in order */
     const unsigned char *inflight_buf;   /* bytestream: what the call in progress offers */
-    int eof_seen, closed, term_errno, gave_up;
+    int eof_seen, closed, term_errno, gave_up, had_eagain_send;
     int last_rc, last_errno;
     /* counter ledger */
     int64_t exp_from_app_msgs, exp_from_app_bytes, exp_to_app_msgs, exp_to_app_bytes;
@@ -340,6 +340,12 @@ static void terminal(struct side *x, const char *op, int err)
     if (timed_out || p->gave_up || p->closed)
         return;
     char sig[160];
+    if (x->n_refused > 0 || x->had_eagain_send) {
+        /* C03: after a send refused with EAGAIN the connection must remain fully usable */
+        snprintf(sig, sizeof sig, "C03/unusable-after-refused-send/%s/%s/tp=%s", op, errname(err), g_tp);
+        V("C03", sig, "%s: after an xcm_send refused with EAGAIN (retry policy '%s') %s failed with %s; the peer is alive and "
+          "the environment injected no fault", x->name, g_retry[0] ? g_retry : "same", op, errname(err));
+    }
     snprintf(sig, sizeof sig, "C04/unexpected-terminal-error/%s/%s/tp=%s", op, errname(err), g_tp);
     V("C04", sig, "%s: %s failed with %s although the peer is alive and the environment injected no fault",
       x->name, op, errname(err));
@@ -398,6 +404,7 @@ static int do_send(struct side *x, struct op *o)
         }
         if (transient(err) && !x->blocking) {
             mc_set_progress(0);
+            x->had_eagain_send = 1;
             if (g_bytestream && g_retry[0] && sent_total == 0 && o->len <= 12) {
                 /* the application changes its mind about what to offer next (C02: "whatever the
                    application offers in its next call") */
